@@ -3,6 +3,7 @@ Spec: spec/chain (ChainBase, ChainAuth, ChainBlock, MCChainAuth, TraceChainAuth)
 harness: harness/chainsim + harness/cmd/vh-chain."""
 import json
 import os
+import re
 
 import vf
 
@@ -80,8 +81,20 @@ def common(c):
     rep = vf.run_harness("vh-chain", targs, env={"VERIF_SEED": c.seed}, timeout=3000)
     c.add("impl_steps", rep["steps"])
     c.cov["trace_result_classes"] = rep.get("op_counts", {})
+    kf = os.path.join(c.scratch, "known.json")
+    with open(kf, "w") as f:
+        json.dump([k["id"] for k in c.known], f)
+    os.environ["KNOWN_FILE"] = kf       # read by TraceChainAuth (IOEnv.KNOWN_FILE)
     res = vf.validate_trace(c, SPEC, "TraceChainAuth", "TraceChainAuth_%s.cfg" % pid, tr,
-                            "random send / resubmission chains", ["vh-chain"] + [str(a) for a in targs], ntr, timeout=3000)
+                            "random send / resubmission / re-encoding chains", ["vh-chain"] + [str(a) for a in targs], ntr, timeout=3000)
+    seen = set()
+    with open(res.stdout_path, errors="replace") as f:
+        for line in f:
+            m = re.search(r'"KNOWN-FINDING-SEEN", "([^"]+)"', line)
+            if m:
+                seen.add(m.group(1))
+    for kid in sorted(seen):
+        c.known_finding("%s %s" % (kid, next((k["what"] for k in c.known if k["id"] == kid), "")))
     with open(tr) as f:
         evs = [json.loads(next(f)) for _ in range(6)]
         for e in evs:
